@@ -37,7 +37,13 @@ def enumerate_cases(full):
             for ch in choices:
                 for slash in (False, True):
                     cases.append({"layouts": dict(zip(layouts, ch)), "slash": slash})
-    return cases
+    # the legacy subdirectory is named after the release version: any directory name will do
+    extra = []
+    names = ["7Server", "6.9.z", "7.2-beta", "20-Alpha", "Rawhide", "x y", "22"]
+    for i, c in enumerate([c for c in cases if "legacy" in c["layouts"] and not c["slash"]]):
+        if full or i % 5 == 0 or list(c["layouts"]) == ["legacy"]:
+            extra.append(dict(c, legacy_name=names[i % len(names)]))
+    return cases + extra
 
 
 def _contents():
@@ -115,7 +121,7 @@ def impl(case):
         contents = _contents()
         root = os.path.join(work, "Compose-1.0-20240101.0")
         os.makedirs(root)
-        sub = {"direct": "", "compose": "compose", "legacy": "1.0"}
+        sub = {"direct": "", "compose": "compose", "legacy": case.get("legacy_name", "1.0")}
         for layout, pat in case["layouts"].items():
             md = os.path.join(root, sub[layout], "metadata")
             os.makedirs(md, exist_ok=True)
